@@ -508,6 +508,11 @@ def cls(body, o, depth=0):
                     idx=rv['fields'].index(lf['name'])
                 if idx is not None and idx < len(rv['ops']):
                     return cls(body, rv['ops'][idx], depth+1)
+        # a field of a by-value struct parameter (not self) is the caller's obligation like a plain parameter: the caller's
+        # aggregate is classified operand by operand at the call site of the sink
+        if p.get('proj') and len(p['proj'])==1 and p['proj'][0]['k']=='field' and body.is_arg(p['l']) and p['l']!=1 \
+                and body.locals[p['l']]['ty'].get('k')=='adt':
+            return 'PARAM:%s.%s'%(body.locals[p['l']].get('name','_%d'%p['l']), lf['name'])
         return 'FIELD:%s'%lf['name']
     l=p['l']
     if body.is_arg(l): return 'PARAM:%s'%body.locals[l].get('name','_%d'%l)
@@ -589,6 +594,17 @@ def _split_top(s):
     return out
 
 
+def _op_ty(body, o):
+    if o["k"] == "const":
+        return o.get("t")
+    if o["k"] in ("copy", "move"):
+        if o["p"].get("proj"):
+            lf = last_field(o["p"])
+            return (lf or {}).get("t")
+        return body.locals[o["p"]["l"]]["ty"].get("s")
+    return None
+
+
 def r_index_bounded(F, V):
     """every index handed to a bucket / control-byte accessor in the raw module is provably bounded by
     construction: masked with bucket_mask, a parameter (caller's obligation, checked at the caller),
@@ -611,6 +627,19 @@ def r_index_bounded(F, V):
                 if q >= len(t["args"]):
                     continue
                 c = cls(body, t["args"][q])
+                a = t["args"][q]
+                if a["k"] in ("copy", "move") and not a["p"].get("proj") and body.locals[a["p"]["l"]]["ty"].get("k") == "adt":
+                    # the index travels inside a struct built here: every usize operand of the aggregate must be bounded
+                    d = body.single_def(a["p"]["l"])
+                    for _ in range(4):
+                        if d and d[0] == "stmt" and d[3]["k"] == "assign" and d[3]["rv"]["k"] == "use" and d[3]["rv"]["op"]["k"] in ("copy", "move") \
+                                and not d[3]["rv"]["op"]["p"].get("proj"):
+                            d = body.single_def(d[3]["rv"]["op"]["p"]["l"])
+                    if d and d[0] == "stmt" and d[3]["k"] == "assign" and d[3]["rv"]["k"] == "aggregate":
+                        cs = [cls(body, o) for o in d[3]["rv"]["ops"] if _op_ty(body, o) == "usize"]
+                        if cs:
+                            bad = [x for x in cs if not _class_ok(x, W, for_ctrl)]
+                            c = bad[0] if bad else cs[0]
                 n += 1
                 key = "%s|%s(%s)" % (p, nm, c[:60])
                 if _class_ok(c, W, for_ctrl):
